@@ -21,7 +21,8 @@ RULE = ("documents combining internal subsets with external general entities, pa
         ' ; xsi:schemaLocation hints; explicit locations for namespaces with a built-in location'
         ' ; the cache folder only; wsdl:import without a location; protocols of cached locations'
         ' ; chains of includes across folders; the default document store; the environment\'s proxy'
-        ' ; built-in locations; doctor imports')
+        ' ; built-in locations; doctor imports'
+        ' ; a foreign element called schema; graph shapes of C12 seen as fetches')
 ASSUMPTIONS = ["pyexpat / xml.sax.expatreader behave as documented for feature_external_ges (trusted, exercised here)",
                "interpreter audit events open / socket.* / urllib.Request see every file or network access"]
 PARTIAL = [{"theorem": "no_resolve_when_disabled", "missing": "about suds' configuration only; expat itself is runtime"}]
